@@ -284,6 +284,49 @@ class Mir:
             return sorted(out)
         return []
 
+    # -- the other end of an argument: what callers pass ---------------------------------
+    def caller_fingerprints(self, keyfn):
+        """keyfn: the function part of an Engine-A key.  -> sorted renderings of every call to that function in the
+        crate (callee and the expression trees of its arguments).  Many table entries rest on what callers pass
+        (digit counts, slices that hold only digits, shift distances); the construct fingerprint cannot see an edit
+        there."""
+        qm = _key_callee(keyfn)
+        if qm is None:
+            return []
+        qual, meth = qm
+        idx = self._call_index()
+        out = set()
+        for (fn, rhs, callee) in idx.get(meth, []):
+            nc = _norm_callee(callee)
+            nc = re.sub(r"\bFixedI\d+\b", "FixedS", re.sub(r"\bFixedU\d+\b", "FixedU", nc))
+            parts = nc.split("::")
+            if len(parts) >= 2 and qual is not None and parts[-2] != qual and parts[-2] not in ("Self",):
+                continue
+            r = self.canonical(self.render(fn, rhs, depth=6))
+            out.add(re.sub(r"\bFixedI\d+\b", "FixedS", re.sub(r"\bFixedU\d+\b", "FixedU", r)))
+        return sorted(out)
+
+    def _call_index(self):
+        idx = getattr(self, "_calls", None)
+        if idx is not None:
+            return idx
+        idx = self._calls = {}
+        for fn in self.fns:
+            for sts in fn.blocks.values():
+                for st in sts:
+                    if not st.is_term or "(" not in st.text:
+                        continue
+                    m = RE_ASSIGN.match(st.text)
+                    rhs = m.group(2) if m else st.text
+                    rhs = re.sub(r"\s*->\s*(\[.*\]|unwind \w+|bb\d+).*$", "", rhs)
+                    cm = re.fullmatch(r"(.*?)\((.*)\)", rhs)
+                    if not cm or not ("::" in cm.group(1) or cm.group(1)[0:1].islower() or cm.group(1)[0:1] == "<"):
+                        continue
+                    callee = cm.group(1)
+                    name = re.sub(r"::<[^()]*>$", "", callee).split("::")[-1]
+                    idx.setdefault(name, []).append((fn, rhs, callee))
+        return idx
+
     @staticmethod
     def _block_panics(fn, bb):
         sts = fn.blocks.get(bb, [])
@@ -334,3 +377,22 @@ def _norm_callee(c):
         return m.group(1).split("::")[-1] + "::" + m.group(2)
     parts = [p for p in re.split(r"::", re.sub(r"<[^<>]*>", "", re.sub(r"<[^<>]*>", "", c))) if p and not p.startswith("<")]
     return "::".join(parts[-2:]) if len(parts) >= 2 and parts[-2][0:1].isupper() else (parts[-1] if parts else c)
+
+
+def _key_callee(keyfn):
+    """function part of an Engine-A key -> (qualifier or None, method); None for closures"""
+    k = keyfn.strip()
+    if "{closure" in k or "{{closure" in k:
+        return None
+    m = re.match(r"^<.* as ([\w:]+?)(?:<.*>)?>::(\w+)$", k)
+    if m:
+        return m.group(1).split("::")[-1], m.group(2)
+    k2 = k
+    for _ in range(4):
+        k2 = re.sub(r"<[^<>]*>", "", k2)
+    parts = [x for x in k2.split("::") if x]
+    if not parts:
+        return None
+    meth = parts[-1]
+    qual = parts[-2] if len(parts) >= 2 and parts[-2][0:1].isupper() else None
+    return qual, meth
